@@ -1,6 +1,6 @@
 """Property -> clauses -> rule instances.  Each check_Cxx fills a Report; it never prints."""
 from .model import AnalysisError
-from .rules import twin, effect, work, feedback, models, misc, state, fresh, pda_rules, build, dispatch, io as iorules, closed, ka_rules, cyk, bound, order
+from .rules import twin, effect, work, feedback, models, misc, state, fresh, pda_rules, build, dispatch, io as iorules, closed, ka_rules, cyk, bound, order, visitor
 
 ALG = ['dfa_algorithms', 'nfa_algorithms', 'pda_algorithms', 'tm_algorithms', 'cfg_algorithms', 'regexp_algorithms']
 
@@ -160,6 +160,7 @@ def check_C05(ctx, rep):
     rep.clauses_decided += ['every rewrite path of regexp_simplify is a Kleene-algebra identity, never grows the expression and is applied after simplifying every child (M3, decided exactly)',
                             'matcher: concatenation splits k in [0,|w|], star takes a non-empty prefix and recurses on the same node, base cases, sum (M3m)',
                             'all six constructors handled in every structural recursion over Regexp (R-DISPATCH a)',
+                            'the parse-tree visitors of both syntaxes build the constructor of each alternative; rewrites done while parsing are Kleene-algebra identities (R-IO.v)',
                             'no cross-call memo feeds the matcher or the simplifier (R-STATE c); operands untouched (R-EFFECT)']
     rep.not_decided += ['that the recursive matcher equals the denotation beyond those facts']
     P = ctx.prog.func
@@ -167,6 +168,8 @@ def check_C05(ctx, rep):
         raise AnalysisError('fewer than 12 rewrite paths extracted from regexp_simplify')
     ka_rules.check_simplify_spec(ctx, rep, P('regexp_algorithms.regexp_simplify'))
     ka_rules.check_matcher(ctx, rep, P('regexp_algorithms.regexp_accepts_word'))
+    if visitor.check_visitors(ctx, rep) < 14:
+        raise AnalysisError('fewer than 14 visit methods of the regular-expression visitors found')
     recs = dispatch.regexp_recursions(ctx)
     if len(recs) < 9:
         raise AnalysisError('fewer than 9 structural recursions over Regexp found')
@@ -369,6 +372,7 @@ def check_C13(ctx, rep):
     if iorules.check_state_formats(ctx, rep, STATE_NAME_CHAINS) < 5:
         raise AnalysisError('fewer than 5 state-name chains decided')
     iorules.check_regexp_io(ctx, rep)
+    visitor.check_visitors(ctx, rep)
     iorules.check_paren_independence(ctx, rep)
     iorules.check_cfg_io(ctx, rep)
     build.check_parse_line(ctx, rep)
@@ -388,6 +392,7 @@ def check_C16(ctx, rep):
     iorules.check_label_layout(ctx, rep, 'pda')
     iorules.check_label_layout(ctx, rep, 'tm')
     iorules.check_regexp_io(ctx, rep)
+    visitor.check_visitors(ctx, rep)
     iorules.check_paren_independence(ctx, rep)
     iorules.check_cfg_io(ctx, rep)
     if iorules.check_generated(ctx, rep) < 3:
